@@ -43,6 +43,21 @@ class Cut:
         exec(self.body_code, g, env)
         return env
 
+    def run_body_before(self, inner, env):
+        """execute the statements of this loop's body that precede the nested loop `inner` (another Cut of the same
+        function); the nested loop itself and what follows it are not executed"""
+        idx = None
+        for i, st in enumerate(self.loop.body):
+            if st.lineno == inner.loop.lineno and type(st) is type(inner.loop):
+                idx = i
+        if idx is None:
+            raise ValueError('inner loop is not a direct statement of this loop body')
+        mod = ast.Module(body=self.loop.body[:idx], type_ignores=[])
+        ast.fix_missing_locations(mod)
+        exec(compile(mod, f'<loop body (head) of {self.func.__qualname__}>', 'exec'), self.func.__globals__, env)
+        self.tail_after_inner = self.loop.body[idx + 1:]
+        return env
+
     def run_test(self, env):
         return eval(self.test_code, self.func.__globals__, env)
 
